@@ -8,7 +8,7 @@ out=seeded/RESULTS.md
 echo "| change | property | caught | violations replayed on the real code | failed obligations |" > $out; echo "|---|---|---|---|---|" >> $out
 for d in seeded/C*/; do
   name=$(basename $d); prop=${name%%-*}
-  [ -n "$1" ] && [[ "$name" != $1* ]] && continue
+  [ -n "$1" ] && [[ "$name" != $1 ]] && continue
   git -C /repo apply /verif/$d/patch.diff || { echo "| $name | $prop | patch failed | | |" >> $out; continue; }
   res=$(VERIF_NOEVIDENCE=1 timeout 1800 bin/vcheck prop $prop --tier quick 2>&1)
   git -C /repo checkout -- . ; git -C /repo clean -fdq
